@@ -196,27 +196,28 @@ def compsFold (caching : Bool) (fresh : Component → Except Err (Option Box)) (
     | (cache', .error e) => (cache', .error e)
     | (cache', .ok b) => compsFold caching fresh name cache' (j + 1) ks (unionOO acc b)
 
-/-- `glyph.bounds` with caches: the glyph after the read (contour caches filled), the component
-table after the read, the answer -/
-def cGlyphBounds (o : CurveOracle) (cw : CWorld) (name : String) (gl : Glyph) :
+/-- `Glyph._getContourComponentBounds` with caches: the glyph after the read (contour caches filled),
+the component table after the read, the answer -/
+def cGlyphBox (caching : Bool) (getC : Contour → Contour × Except Err (Option Box))
+    (fresh : Component → Except Err (Option Box)) (table : List (KKey × Option Box)) (name : String) (gl : Glyph) :
     Glyph × List (KKey × Option Box) × Except Err (Option Box) :=
-  let r := contoursBoxes (Contour.getBounds o cw.w.caching) gl.contours none
+  let r := contoursBoxes getC gl.contours none
   let g1 := { gl with contours := r.1 }
   match r.2 with
-  | .error e => (g1, cw.kb, .error e)
+  | .error e => (g1, table, .error e)
   | .ok acc =>
-    let r2 := compsFold cw.w.caching (Component.bounds o cw.w) name cw.kb 0 gl.components acc
+    let r2 := compsFold caching fresh name table 0 gl.components acc
     (g1, r2.1, r2.2)
 
+/-- `glyph.bounds` -/
+def cGlyphBounds (o : CurveOracle) (cw : CWorld) (name : String) (gl : Glyph) :
+    Glyph × List (KKey × Option Box) × Except Err (Option Box) :=
+  cGlyphBox cw.w.caching (Contour.getBounds o cw.w.caching) (Component.bounds o cw.w) cw.kb name gl
+
+/-- `glyph.controlPointBounds` -/
 def cGlyphCpb (cw : CWorld) (name : String) (gl : Glyph) :
     Glyph × List (KKey × Option Box) × Except Err (Option Box) :=
-  let r := contoursBoxes (Contour.getCpb cw.w.caching) gl.contours none
-  let g1 := { gl with contours := r.1 }
-  match r.2 with
-  | .error e => (g1, cw.kc, .error e)
-  | .ok acc =>
-    let r2 := compsFold cw.w.caching (Component.cpb cw.w) name cw.kc 0 gl.components acc
-    (g1, r2.1, r2.2)
+  cGlyphBox cw.w.caching (Contour.getCpb cw.w.caching) (Component.cpb cw.w) cw.kc name gl
 
 def isOk : Res → Bool
   | .ok => true
@@ -226,6 +227,11 @@ def nameIs (n : String) : String → Bool := fun m => decide (m = n)
 def keyOf (n : String) : KKey → Bool := fun key => decide (key.1 = n)
 def keyIs (n : String) (j : Nat) : KKey → Bool := fun key => decide (key.1 = n ∧ key.2 = j)
 def noKey : KKey → Bool := fun _ => false
+def nameIn2 (a b : String) : String → Bool := fun m => decide (m = a ∨ m = b)
+
+/-- the caches of a renamed glyph object are found under its new name -/
+def rekeyK {β : Type} (g new : String) (e : KKey × β) : KKey × β := if e.1.1 = g then ((new, e.1.2), e.2) else e
+def rekeyA {β : Type} (g new : String) (e : String × β) : String × β := if e.1 = g then (new, e.2) else e
 
 /-- a mutation of glyph `name` done by the first layer: evict when `doEvict` -/
 def CWorld.after (cw : CWorld) (r : World × Res) (doEvict : Bool) (name : String) (selfK : KKey → Bool) :
@@ -377,11 +383,10 @@ def cstep (o : CurveOracle) (cw : CWorld) : XOp → CWorld × Res
     let r := xstep o cw.w (.gRename g new)
     if isOk r.2 && decide (new ≠ g) then
       -- the glyph object keeps its caches under its new name, unless they depend on either name
-      let S : String → Bool := fun m => decide (m = g ∨ m = new)
-      let cw1 := cw.evict r.1 S noKey (fun _ => false)
-      ({ cw1 with kb := cw1.kb.map (fun e => if e.1.1 = g then ((new, e.1.2), e.2) else e),
-                  kc := cw1.kc.map (fun e => if e.1.1 = g then ((new, e.1.2), e.2) else e),
-                  ga := cw1.ga.map (fun e => if e.1 = g then (new, e.2) else e) }, r.2)
+      ({ w := r.1,
+         kb := (evictK cw.w (nameIn2 g new) noKey cw.kb).map (rekeyK g new),
+         kc := (evictK cw.w (nameIn2 g new) noKey cw.kc).map (rekeyK g new),
+         ga := (evictA cw.w (nameIn2 g new) (fun _ => false) cw.ga).map (rekeyA g new) }, r.2)
     else ({ cw with w := r.1 }, r.2)
 
 def crun (o : CurveOracle) (cw : CWorld) : List XOp → CWorld × List Res
